@@ -15,6 +15,13 @@
 //! inputs have byte-identical unframed concatenations the kind is `c17-unframed-concatenation-collision`
 //! (finding F10); any other coincidence (a tag that ignores the version, the nonce, a key, the order ...)
 //! is `c17-tag-collision`.
+//!
+//! Acceptance monitors on every verifying entry point (`check_hmac`, `remove_and_check_hmac`,
+//! `process_value_from_get`): each case also presents truncated tags (0, 1, 16, 31 bytes), extended tags
+//! (33 bytes, tag‖garbage), all-zero and bit-flipped tags and the *correct* tags of another nonce, domain,
+//! key, version, content or record list; an acceptance of anything but the exact full-length tag of exactly the
+//! presented input (reference: library HMAC over the harness' own concatenation) is
+//! `c17-forged-tag-accepted:<variant>`.
 use crate::common::*;
 use lightning_signer::lightning::sign::EntropySource;
 use lightning_signer::persist::{compute_shared_hmac, ExternalPersistHelper, Mutations};
@@ -76,6 +83,46 @@ fn concat_recs(rs: &[Rec]) -> Vec<u8> {
         out.extend_from_slice(x);
     }
     out
+}
+
+/// Reference tags for the acceptance monitors: HMAC-SHA256 from the hashing library over the harness' own
+/// unframed concatenation (independent of the verifying code under test and of the Lean model).
+fn ref_hmac(secret: &[u8], msg: &[u8]) -> Vec<u8> {
+    use lightning_signer::bitcoin::hashes::sha256::Hash as Sha256Hash;
+    use lightning_signer::bitcoin::hashes::{Hash, HashEngine, Hmac, HmacEngine};
+    let mut e = HmacEngine::<Sha256Hash>::new(secret);
+    e.input(msg);
+    Hmac::from_engine(e).to_byte_array().to_vec()
+}
+
+fn ref_shared_tag(secret: &[u8], nonce: &[u8], rs: &[Rec]) -> Vec<u8> {
+    let mut m = secret.to_vec();
+    m.extend_from_slice(nonce);
+    m.extend(concat_recs(rs));
+    ref_hmac(secret, &m)
+}
+
+fn ref_value_tag(secret: &[u8], rec: &Rec) -> Vec<u8> {
+    ref_hmac(secret, &concat_recs(&[rec.clone()]))
+}
+
+/// how an accepted tag differs from the one tag that may be accepted
+fn forged_variant(received: &[u8], expected: &[u8], other_tags: &[Vec<u8>]) -> String {
+    if received.is_empty() {
+        "empty".into()
+    } else if received.len() < expected.len() && expected.starts_with(received) {
+        format!("truncated-{}", received.len())
+    } else if received.len() > expected.len() && received.starts_with(expected) {
+        "extended".into()
+    } else if received.len() != expected.len() {
+        "other-length".into()
+    } else if other_tags.iter().any(|t| t.as_slice() == received) {
+        "tag-of-other-input".into()
+    } else if received.iter().zip(expected.iter()).filter(|(a, b)| a != b).count() == 1 {
+        "bit-flipped".into()
+    } else {
+        "wrong-tag".into()
+    }
 }
 
 pub struct C17Hmac;
@@ -159,6 +206,17 @@ fn exec_line(line: &str, i: usize, mon: &mut Monitor, co: &mut CaseOut) -> Strin
             assert_eq!(got, n32);
             let ok = h.check_hmac(&m, tag.clone());
             if ok {
+                // acceptance monitor: only the exact, full-length tag of exactly this (nonce, records) may pass
+                let expected = ref_shared_tag(&s, &n, &rs);
+                if tag != expected {
+                    let others: Vec<Vec<u8>> = mon.shared.keys().map(|k| k.1.clone()).collect();
+                    co.violations.push(Violation {
+                        kind: format!("c17-forged-tag-accepted:{}", forged_variant(&tag, &expected, &others)),
+                        desc: format!("check_hmac accepted the received tag {} ({} bytes) for nonce {} records[{}]; the only tag that may be accepted is {}",
+                            hexs(&tag), tag.len(), hexs(&n), show_recs(&rs), hexs(&expected)),
+                        at: i,
+                    });
+                }
                 co.tags.insert("check:true".into());
                 mon.shared_input(i, &s, &n, &rs, &tag, &mut co.violations);
             } else {
@@ -188,6 +246,19 @@ fn exec_line(line: &str, i: usize, mon: &mut Monitor, co: &mut CaseOut) -> Strin
                 Ok(()) => {
                     co.tags.insert("proc:ok".into());
                     let tag = st[st.len() - 32..].to_vec();
+                    // acceptance monitor: the stored bytes must be exactly content ‖ full tag of (key, version, content)
+                    let expected = ref_value_tag(&s, &(k.clone(), v, value.clone()));
+                    let mut exact = value.clone();
+                    exact.extend_from_slice(&expected);
+                    if st != exact {
+                        let others: Vec<Vec<u8>> = mon.value.keys().map(|k| k.1.clone()).collect();
+                        co.violations.push(Violation {
+                            kind: format!("c17-forged-tag-accepted:stored-{}", forged_variant(&tag, &expected, &others)),
+                            desc: format!("remove_and_check_hmac accepted stored bytes {} as (key {}, version {}, value {}); the only acceptable tag is {}",
+                                hexs(&st), hexs(&k), v, hexs(&value), hexs(&expected)),
+                            at: i,
+                        });
+                    }
                     mon.value_input(i, &s, &(k, v, value.clone()), &tag, &mut co.violations);
                     format!("ok {}", hexs(&value))
                 }
@@ -196,7 +267,7 @@ fn exec_line(line: &str, i: usize, mon: &mut Monitor, co: &mut CaseOut) -> Strin
         }
         // implementation only: the full default path with the ChaCha20 layer.  `procx S K V X K' V' MUT`:
         // write (K,V,X) with prepare_value_for_put, apply byte mutation MUT (`-` none, `f<i>` flip bit 0 of byte i,
-        // `t<n>` truncate n bytes, `p<hex>` prepend bytes) to the stored ciphertext, read it back as (K',V')
+        // `t<n>` truncate n bytes, `p<hex>` prepend bytes, `a<hex>` append bytes) to the stored ciphertext, read it back as (K',V')
         "procx" => {
             let (s, k, v, x) = (unhex(t[1]), unhex(t[2]), t[3].parse::<u64>().unwrap(), unhex(t[4]));
             let (k2, v2) = (unhex(t[5]), t[6].parse::<u64>().unwrap());
@@ -209,12 +280,13 @@ fn exec_line(line: &str, i: usize, mon: &mut Monitor, co: &mut CaseOut) -> Strin
             if let Some(i) = m.strip_prefix('f') { let i: usize = i.parse().unwrap(); if !stored.is_empty() { let j = i % stored.len(); stored[j] ^= 1; } }
             else if let Some(n) = m.strip_prefix('t') { let n: usize = n.parse().unwrap(); let l = stored.len().saturating_sub(n); stored.truncate(l); }
             else if let Some(h) = m.strip_prefix('p') { let mut p = unhex(h); p.extend(stored); stored = p; }
+            else if let Some(h) = m.strip_prefix('a') { stored.extend(unhex(h)); }
             let mut back = Value { version: v2 as i64, value: stored };
             match lssu::process_value_from_get(&s, &ks2, &mut back) {
                 Ok(()) => {
                     if (k2.clone(), v2, back.value.clone()) != (k.clone(), v, x.clone()) {
                         co.violations.push(Violation {
-                            kind: "c17-value-accepted-not-as-written".into(),
+                            kind: "c17-forged-tag-accepted:stored-value-not-as-written".into(),
                             desc: format!("written (key {}, version {}, value {}), mutation {}, accepted as (key {}, version {}, value {})",
                                 hexs(&k), v, hexs(&x), m, hexs(&k2), v2, hexs(&back.value)),
                             at: i,
@@ -406,12 +478,25 @@ impl Group for C17Hmac {
             // replay under another nonce / other secret / flipped tag
             let mut n2 = nonce.clone(); n2[rng.below(32) as usize] ^= 1 << rng.below(8);
             ops.push(format!("check {} {} {}{}", s, hexs(&n2), hexs(&tag), show_recs(&base)));
+            // the correct tag of the other nonce presented under this one
+            ops.push(format!("check {} {} {}{}", s, n, hexs(&compute_shared_hmac(&secret, &n2, &m)), show_recs(&base)));
             ops.push(format!("shared {} {}{}", s, hexs(&n2), show_recs(&base)));
             let mut s2 = secret.clone(); s2[rng.below(32) as usize] ^= 1 << rng.below(8);
             ops.push(format!("check {} {} {}{}", hexs(&s2), n, hexs(&tag), show_recs(&base)));
             let mut t2 = tag.clone(); t2[rng.below(32) as usize] ^= 1 << rng.below(8);
             ops.push(format!("check {} {} {}{}", s, n, hexs(&t2), show_recs(&base)));
-            ops.push(format!("check {} {} {}{}", s, n, hexs(&tag[..31]), show_recs(&base)));
+            // forged tags for the unchanged reply: truncated (incl. empty), extended, tags of other inputs
+            for cut in [0usize, 1, 16, 31] {
+                ops.push(format!("check {} {} {}{}", s, n, hexs(&tag[..cut]), show_recs(&base)));
+            }
+            { let mut t = tag.clone(); t.push(0); ops.push(format!("check {} {} {}{}", s, n, hexs(&t), show_recs(&base))); }
+            { let mut t = tag.clone(); let g = 1 + rng.below(40) as usize; t.extend(rng.bytes(g)); ops.push(format!("check {} {} {}{}", s, n, hexs(&t), show_recs(&base))); }
+            ops.push(format!("check {} {} {}{}", s, n, hexs(&vec![0u8; 32]), show_recs(&base)));
+            {
+                let helper = ExternalPersistHelper::new(arr32(&secret).unwrap());
+                ops.push(format!("check {} {} {}{}", s, n, hexs(&helper.client_hmac(&m)), show_recs(&base)));
+                ops.push(format!("check {} {} {}{}", s, n, hexs(&helper.server_hmac(&m)), show_recs(&base)));
+            }
             // client tag replayed as a get response whose nonce begins with 0x01 (one-byte vs 32-byte nonce)
             if rng.chance(1, 4) {
                 let mut n3 = nonce.clone(); n3[0] = 1;
@@ -422,6 +507,16 @@ impl Group for C17Hmac {
                 ops.push(format!("shared {} {}{}", s, n, show_recs(&r)));
                 if rng.chance(1, 2) {
                     ops.push(format!("check {} {} {}{}", s, n, hexs(&tag), show_recs(&r)));
+                }
+                // the correct tag of the mutated list presented for the original one, and truncated for itself
+                if let Some(mr) = to_mutations(&r) {
+                    let tr = compute_shared_hmac(&secret, &nonce, &mr).to_vec();
+                    if rng.chance(1, 2) {
+                        ops.push(format!("check {} {} {}{}", s, n, hexs(&tr), show_recs(&base)));
+                    }
+                    if rng.chance(1, 4) {
+                        ops.push(format!("check {} {} {}{}", s, n, hexs(&tr[..*rng.pick(&[0usize, 1, 16, 31])]), show_recs(&r)));
+                    }
                 }
             }
         } else {
@@ -453,6 +548,29 @@ impl Group for C17Hmac {
             ops.push(format!("proc {} {} {} {}", s, hexs(&k), v, hexs(&stored[1..])));
             ops.push(format!("proc {} {} {} {}", s, hexs(&k), v, hexs(&stored[..rng.below(33) as usize])));
             ops.push(format!("procx {} {} {} {} {} {} t{}", s, hexs(&k), v, hexs(&x), hexs(&k), v, rng.range(1, 40)));
+            // forged tags: content followed by a truncated tag (0, 1, 16, 31 bytes), an extended tag, a flipped tag,
+            // and the correct tag of another key / version / content
+            let tagv = stored[stored.len() - 32..].to_vec();
+            for cut in [0usize, 1, 16, 31] {
+                let mut st = x.clone(); st.extend_from_slice(&tagv[..cut]);
+                ops.push(format!("proc {} {} {} {}", s, hexs(&k), v, hexs(&st)));
+                ops.push(format!("procx {} {} {} {} {} {} t{}", s, hexs(&k), v, hexs(&x), hexs(&k), v, 32 - cut));
+            }
+            { let mut st = stored.clone(); st.push(0); ops.push(format!("proc {} {} {} {}", s, hexs(&k), v, hexs(&st))); }
+            { let mut st = stored.clone(); let g = 1 + rng.below(40) as usize; st.extend(rng.bytes(g)); ops.push(format!("proc {} {} {} {}", s, hexs(&k), v, hexs(&st))); }
+            ops.push(format!("procx {} {} {} {} {} {} a00", s, hexs(&k), v, hexs(&x), hexs(&k), v));
+            ops.push(format!("procx {} {} {} {} {} {} a{}", s, hexs(&k), v, hexs(&x), hexs(&k), v, hexs(&rng.bytes(33))));
+            { let mut st = stored.clone(); let l = st.len(); st[l - 1 - rng.below(32) as usize] ^= 1 << rng.below(8); ops.push(format!("proc {} {} {} {}", s, hexs(&k), v, hexs(&st))); }
+            { let mut st = x.clone(); st.extend(vec![0u8; 32]); ops.push(format!("proc {} {} {} {}", s, hexs(&k), v, hexs(&st))); }
+            for (k3, v3, x3) in [(k2.clone(), v, x.clone()), (k.clone(), v2, x.clone()), (k.clone(), v, { let mut y = x.clone(); y.push(1); y })] {
+                if let Ok(ks3) = String::from_utf8(k3.clone()) {
+                    let mut other = x3.clone();
+                    lssu::append_hmac_to_value(&secret, &ks3, v3 as i64, &mut other);
+                    let t3 = other[other.len() - 32..].to_vec();
+                    let mut st = x.clone(); st.extend_from_slice(&t3);
+                    ops.push(format!("proc {} {} {} {}", s, hexs(&k), v, hexs(&st)));
+                }
+            }
             // field shifts (F10 for stored values): key loses its last byte
             if !k.is_empty() {
                 let mut bytes = vec![*k.last().unwrap()]; bytes.extend(be(v));
